@@ -16,7 +16,7 @@ NE, TE, ND, NEL = PROFILES["distinct"]
 UNIT = 1e-14
 
 
-def _mock():
+def _mock(which=1):
     from cherab.core.atomic import AtomicData
     from cherab.core.atomic import rates as R
 
@@ -29,11 +29,11 @@ def _mock():
     class A(AtomicData):
         # rates vary with temperature and density so that every profile point has its own balance
         def ionisation_rate(self, ion, charge):
-            return mk(R.IonisationRate, lambda ne, te: (1 + (charge + ion.atomic_number) % 3) * UNIT * (te / 100.0) ** 0.5)
+            return mk(R.IonisationRate, lambda ne, te: which * (1 + (charge + ion.atomic_number) % 3) * UNIT * (te / 100.0) ** 0.5)
         def recombination_rate(self, ion, charge):
             return mk(R.RecombinationRate, lambda ne, te: (1 + (2 * charge + ion.atomic_number) % 3) * UNIT * (100.0 / te) ** 0.5 * (1 + ne / 1e20))
         def thermal_cx_rate(self, de, dq, re, rq):
-            return mk(R.ThermalCXRate, lambda ne, te: (2 + (rq * rq) % 3) * UNIT)
+            return mk(R.ThermalCXRate, lambda ne, te: (2 + (rq * rq) % 3 + 3 * (which - 1)) * UNIT)
     return A()
 
 
@@ -80,7 +80,7 @@ def replay(rec, ctx):
     from raysect.core.math.function.float import Interpolator1DArray, Interpolator2DArray
     from cherab.core.atomic import elements as E
     from cherab.tools.plasmas import ionisation_balance as IB
-    ad = _mock()
+    providers = {1: _mock(1), 2: _mock(2)}
     calls = rec["calls"]
     NE, TE, ND, NEL = PROFILES[rec.get("profile", "distinct")]
     # the caller's profile arrays, created once and handed to every call
@@ -98,6 +98,7 @@ def replay(rec, ctx):
     viol = []
     for i, c in enumerate(calls):
         fr = c.get("front", "direct")
+        ad = providers[c.get("provider", 1)]
         name = f"{'' if fr == 'direct' else fr + '_'}{c['entry']}[{c['rep']},{'donor' if c['donor'] == 'shared' else 'no-donor'}]"
         scale2 = None
         prev = " after " + ", ".join(f"{x['entry']}[{x['rep']}]" for x in calls[:i]) if i else ""
